@@ -68,4 +68,13 @@ def main(argv):
 
 
 if __name__ == '__main__':
-    sys.exit(main(sys.argv[1:]))
+    try:
+        rc = main(sys.argv[1:])
+    except SystemExit:
+        raise
+    except BaseException:
+        import traceback
+        traceback.print_exc()
+        print('HARNESS-ERROR: simcheck crashed (this is not a verdict on the property)')
+        rc = 2
+    sys.exit(rc)
